@@ -41,7 +41,7 @@ def instrument(ctx):
             continue
         out, n = [], 0
         for line in open(path).read().split("\n"):
-            m = re.match(r"^(\s*)\w+(\.\w+)*[Mm]utex\.Lock\(\)\s*$", line)
+            m = re.match(r"^(\s*)[\w.]*[Mm]utex\.Lock\(\)\s*$", line)
             if m:
                 out.append(m.group(1) + (YIELD % "Lock"))
                 n += 1
